@@ -95,6 +95,27 @@ def build_tools(builddir=None):
     """Compile fd_dump, desc_dump.o and the runtime object (from /repo/protobuf-c/protobuf-c.c) into
     builddir; each is rebuilt only when one of its sources is newer than the product."""
     builddir = os.path.abspath(builddir or DEFAULT_BUILDDIR)
+    # the products depend on the CONTENT of the sources (a check may be pointed at another copy of the repository,
+    # or the tree may have been restored to an earlier state: modification times say nothing then)
+    import hashlib
+    h = hashlib.sha1()
+    for src in (FD_DUMP_SRC, PBC_OPTS_CC, PBC_OPTS_H, DESC_DUMP_SRC, RUNTIME_H, RUNTIME_C):
+        try:
+            with open(src, 'rb') as fh:
+                h.update(src.encode() + b'\0' + fh.read() + b'\0')
+        except OSError:
+            h.update(src.encode() + b'\0<missing>\0')
+    key = os.path.abspath(builddir)
+    builddir = os.path.join(builddir, 'tools-' + h.hexdigest()[:16])
+    if not os.path.isdir(builddir):
+        # keep the directory small: drop older tool sets
+        try:
+            old_sets = sorted((d for d in os.listdir(key) if d.startswith('tools-')),
+                              key=lambda d: os.path.getmtime(os.path.join(key, d)))
+            for d in old_sets[:-3]:
+                shutil.rmtree(os.path.join(key, d), ignore_errors=True)
+        except OSError:
+            pass
     os.makedirs(builddir, exist_ok=True)
     fd_dump = os.path.join(builddir, 'fd_dump')
     desc_o = os.path.join(builddir, 'desc_dump.o')
@@ -122,7 +143,7 @@ def build_tools(builddir=None):
             raise ToolError('cannot build the runtime object:\n' + err[-4000:])
         os.replace(tmp, rt_o)
     tools = {'builddir': builddir, 'fd_dump': fd_dump, 'desc_dump_o': desc_o, 'runtime_o': rt_o}
-    _tools[builddir] = tools
+    _tools[key] = tools
     return tools
 
 
